@@ -19,6 +19,9 @@ RULE = ("orders: the 17 curve orders, {2,3,255,256,257,65535,65536,65537} and ra
         "(quick) / <= 5 (thorough) over {30 02 00 01 03 04 7f 80 81 ff} and every SEQUENCE-framed body of length <= 6 (quick) / "
         "<= 7 (thorough) over {00 01 02 7f 80 ff}. A case is distinct by its operation line; non-trivial = every case.")
 ASSUMPTIONS = [
+    "search only (allocator dependent, so not part of the correspondence): call sequences with short-lived, freshly computed "
+    "order objects of every bit length 2..699 and random alternations inside one int allocation size class, six functions per "
+    "order, each result compared with the pure-function oracle (state kept between calls would show)",
     "orders are integers n >= 1 (the property quantifies over n >= 2); orderlen(0) is only exercised by the correspondence",
     "the raw codecs do not range-check r, s against n (only the byte length is fixed): decoders accept any value below 256^l "
     "and the encoders any value below 256^l; the bijection is on [0, 256^l) which contains [0, n-1]",
@@ -568,6 +571,58 @@ def check_der(util, x, n, cont=None):
     return None
 
 
+# ------------------------------------------------------------------------------------------------
+# call SEQUENCES with short-lived order objects: every call gets a freshly computed int (created in the argument
+# expression, dropped when the call returns), byte lengths alternating, so that state kept between calls (a memo keyed by
+# object identity, say) shows.  The property is about pure functions: each result is compared with the oracle.
+def fresh_order(kind, bits, k):
+    v = (1 << bits) - 1 - k
+    if kind == 1:
+        return int(str(v))
+    if kind == 2:
+        return v + 0
+    return v
+
+
+def fresh_sequence(ctx):
+    rng = ctx.rng
+    seq = [(b % 3, b, 0) for b in range(2, 700)]                       # every bit length in turn
+    for _ in range(200 if ctx.quick else 3000):                          # alternations within one allocation size class
+        d = rng.randrange(1, 24)                                         # CPython ints: 30-bit digits
+        lo, hi = 30 * (d - 1) + 1, 30 * d
+        a, b = rng.randrange(lo, hi + 1), rng.randrange(lo, hi + 1)
+        for bits in (a, b, a, b):
+            if bits >= 2:
+                seq.append((rng.randrange(3), bits, rng.randrange(0, 3) if bits > 3 else 0))
+    return seq
+
+
+def run_fresh_sequence(util, seq):
+    """first failure as (index, {"observed", "expected"}) or None; runs the whole sequence in order"""
+    for i, (kind, bits, k) in enumerate(seq):
+        v = (1 << bits) - 1 - k
+        l = (v.bit_length() + 7) // 8
+        r, s = 1 % v, v - 1
+        canon = r.to_bytes(l, "big") + s.to_bytes(l, "big")
+        steps = [
+            ("orderlen", lambda: util.orderlen(fresh_order(kind, bits, k)), l),
+            ("number_to_string", lambda: bytes(util.number_to_string(r, fresh_order(kind, bits, k))), r.to_bytes(l, "big")),
+            ("sigencode_string", lambda: bytes(util.sigencode_string(r, s, fresh_order(kind, bits, k))), canon),
+            ("sigdecode_string", lambda: tuple(util.sigdecode_string(canon, fresh_order(kind, bits, k))), (r, s)),
+            ("sigdecode_strings", lambda: tuple(util.sigdecode_strings([canon[:l], canon[l:]], fresh_order(kind, bits, k))), (r, s)),
+            ("string_to_number_fixedlen", lambda: util.string_to_number_fixedlen(canon[l:], fresh_order(kind, bits, k)), s),
+        ]
+        for op, f, want in steps:
+            try:
+                got = f()
+            except Exception as e:  # noqa
+                got = "exception " + exc(e)
+            if got != want:
+                return i, {"observed": "%s with a fresh %d-bit order (call %d of the sequence): %s" % (op, bits, i, short(got.hex() if isinstance(got, bytes) else got)),
+                           "expected": short(want.hex() if isinstance(want, bytes) else want)}
+    return None
+
+
 def search(ctx):
     from ecdsa import util
     n_eval = 0
@@ -581,6 +636,17 @@ def search(ctx):
     def done():
         ctx.cov["search_evaluations"] = n_eval
 
+    seq = fresh_sequence(ctx)
+    bad = run_fresh_sequence(util, seq)
+    n_eval += len(seq) * 6
+    ctx.hist("search", "fresh-order-sequence", len(seq))
+    if bad:
+        i, b = bad
+        if rep({"op": "fresh-order-sequence", "sequence": [list(x) for x in seq[:i + 1]], "order": None, "allocator_dependent": True,
+                "how": "orders are created in the argument expression of each call (kind 0: (1<<bits)-1-k, 1: int(str(.)), 2: .+0) and "
+                       "dropped at return; the outcome can depend on which freed object's address CPython reuses: replay runs the whole "
+                       "recorded prefix in order"}, b):
+            return done()
     for name, n in ords:
         for (r, s) in pairs(ctx, n):
             n_eval += 1
@@ -665,6 +731,10 @@ def search(ctx):
 def replay(rec):
     from ecdsa import util
     i = rec["input"]
+    if i["op"] == "fresh-order-sequence":
+        # allocator dependent: the whole recorded prefix is re-run (a few times) with objects created the same way
+        seq = [tuple(x) for x in i["sequence"]]
+        return any(run_fresh_sequence(util, seq) is not None for _ in range(3))
     n = i["order"]
     if i["op"] == "pair":
         return check_pair(util, i["r"], i["s"], n) is not None
